@@ -28,6 +28,8 @@ ExportSeqs ==
    "suffix"   - declaration 2 is private and its name (_tail) is a suffix of declaration 1's name (public_tail), which is re-exported.
    "samemodule" - two public modules with the SAME module name in different packages (sub/deep/m and sub/m); module 1 is re-exported as a
                   whole module ('from <root>.sub.deep import m') by one package.
+   "samemoduleboth" - like "samemodule", but one package re-exports both same-named modules as a whole, each under an alias of its own
+                  ('from <root>.sub.deep import m as AliasA', 'from <root>.sub import m as AliasB').
    "initdecl"  - declaration 1 is written directly into the package file sub/deep/__init__.py (no re-export): it belongs to the stub of that package.
    "sharedbase" - both classes live in sub/deep/moda and derive from one private class that has a public method m_shared; class 2 overrides it,
                   class 1 does not: each class shows m_shared exactly once.
@@ -55,11 +57,12 @@ ExportSeqs ==
                   (and `plain` by int): attributes are declarations like any other.
    "privreexp"  - like "distinct", but the sibling package (at = 3) is a private one (<root>/_other; reported as "other"): a public declaration
                   that only a private package re-exports is still emitted once, in its module's stub or in that package's. *)
-Variants == {"bareimport", "privpkgtop", "privpkginit", "pkgnamed", "samenameboth", "genericattr", "privreexp", "distinct", "samename", "suffix", "samemodule", "initdecl", "sharedbase", "suffixalias", "stdlibname", "exccls", "pkgmodreexp", "privtwin", "privtwindeep", "newtype"}
+Variants == {"samemoduleboth", "bareimport", "privpkgtop", "privpkginit", "pkgnamed", "samenameboth", "genericattr", "privreexp", "distinct", "samename", "suffix", "samemodule", "initdecl", "sharedbase", "suffixalias", "stdlibname", "exccls", "pkgmodreexp", "privtwin", "privtwindeep", "newtype"}
 Universe == { [kind |-> k, exports |-> e, variant |-> "distinct"] : k \in Kinds, e \in ExportSeqs }
              \cup { [kind |-> k, exports |-> << Exp(a, 1, x) >>, variant |-> v] : k \in Kinds, a \in {0, 1, 2}, x \in {"", "AliasA"}, v \in {"samename", "suffix"} }
              \cup { [kind |-> k, exports |-> << Exp(a, 1, "") >>, variant |-> "samemodule"] : k \in Kinds, a \in {0, 1, 3} }
              \cup { [kind |-> k, exports |-> << >>, variant |-> "initdecl"] : k \in Kinds }
+             \cup { [kind |-> k, exports |-> << Exp(a, 1, "AliasA"), Exp(a, 2, "AliasB") >>, variant |-> "samemoduleboth"] : k \in Kinds, a \in {0, 3} }
              \cup { [kind |-> k, exports |-> << >>, variant |-> "bareimport"] : k \in Kinds }
              \cup { [kind |-> k, exports |-> << Exp(a, 1, x) >>, variant |-> "privpkgtop"] : k \in Kinds, a \in {0, 1, 3}, x \in {"", "AliasA"} }
              \cup { [kind |-> k, exports |-> << Exp(a, 1, x) >>, variant |-> "privpkginit"] : k \in Kinds, a \in {0, 1, 3}, x \in {"", "AliasA"} }
@@ -88,10 +91,10 @@ ExposedNames(s, at, t) ==
 PublicDecl(s, t) ==
   IF s.variant = "bareimport" THEN FALSE ELSE
   IF s.variant \in {"privtwin", "privtwindeep"} THEN t = 1 ELSE
-  IF s.variant \in {"distinct", "samemodule", "initdecl", "sharedbase", "suffixalias", "stdlibname", "exccls", "pkgmodreexp", "newtype", "privreexp", "genericattr", "samenameboth", "pkgnamed", "privpkginit", "privpkgtop"} THEN TRUE
+  IF s.variant \in {"distinct", "samemodule", "initdecl", "sharedbase", "suffixalias", "stdlibname", "exccls", "pkgmodreexp", "newtype", "privreexp", "genericattr", "samenameboth", "pkgnamed", "privpkginit", "privpkgtop", "samemoduleboth"} THEN TRUE
   ELSE t = 1 /\ \E a \in Ats : Exposes(s, a, 1)       \* private modules: public only through the re-export, and only the re-exported declaration
 ModHomeV(s, t) == IF s.variant = "privtwin" THEN (IF t = 1 THEN <<"sub", "deep", "modsame">> ELSE <<"_hid", "modsame">>)
-                  ELSE IF s.variant = "privtwindeep" THEN (IF t = 1 THEN <<"sub", "deep", "modsame">> ELSE <<"sub", "deep", "_hid", "modsame">>) ELSE IF s.variant = "pkgmodreexp" THEN (IF t = 1 THEN <<"sub", "deep">> ELSE <<"sub">>) ELSE IF s.variant = "stdlibname" /\ t = 2 THEN <<"sub", "logging">> ELSE IF s.variant = "sharedbase" THEN <<"sub", "deep", "moda">> ELSE IF s.variant = "initdecl" /\ t = 1 THEN <<"sub", "deep">> ELSE IF s.variant = "pkgnamed" /\ t = 2 THEN <<"sub", "deep">> ELSE IF s.variant = "privpkginit" /\ t = 1 THEN <<"sub", "_2d">> ELSE IF s.variant = "privpkgtop" /\ t = 1 THEN <<"_2d">> ELSE IF s.variant = "samemodule" THEN (IF t = 1 THEN <<"sub", "deep", "modsame">> ELSE <<"sub", "modsame">>) ELSE ModHome(t)
+                  ELSE IF s.variant = "privtwindeep" THEN (IF t = 1 THEN <<"sub", "deep", "modsame">> ELSE <<"sub", "deep", "_hid", "modsame">>) ELSE IF s.variant = "pkgmodreexp" THEN (IF t = 1 THEN <<"sub", "deep">> ELSE <<"sub">>) ELSE IF s.variant = "stdlibname" /\ t = 2 THEN <<"sub", "logging">> ELSE IF s.variant = "sharedbase" THEN <<"sub", "deep", "moda">> ELSE IF s.variant = "initdecl" /\ t = 1 THEN <<"sub", "deep">> ELSE IF s.variant = "pkgnamed" /\ t = 2 THEN <<"sub", "deep">> ELSE IF s.variant = "privpkginit" /\ t = 1 THEN <<"sub", "_2d">> ELSE IF s.variant = "privpkgtop" /\ t = 1 THEN <<"_2d">> ELSE IF s.variant \in {"samemodule", "samemoduleboth"} THEN (IF t = 1 THEN <<"sub", "deep", "modsame">> ELSE <<"sub", "modsame">>) ELSE ModHome(t)
 AllowedHomes(s, t) == { ModHomeV(s, t) } \cup { PkgPath(at) : at \in { a \in Ats : Exposes(s, a, t) } }
 AllowedNames(s, t) == { DName(t) } \cup UNION { ExposedNames(s, a, t) : a \in Ats }
 Targets(s) == {1} \cup { s.exports[j].tgt : j \in 1..Len(s.exports) }
@@ -115,7 +118,7 @@ Live_Done == <>(pc = "done")
 Shape(s) == (IF Len(s.exports) = 0 THEN (IF s.variant = "initdecl" THEN "declared-in-package-file" ELSE "not-re-exported") ELSE IF Len(s.exports) = 1 THEN "single" ELSE
              IF s.exports[1].tgt = s.exports[2].tgt THEN (IF s.exports[1].at = s.exports[2].at THEN "same-package-twice" ELSE IF Len(PkgPath(s.exports[1].at)) = Len(PkgPath(s.exports[2].at)) THEN "two-packages-equal-depth" ELSE "two-depths")
              ELSE (IF BoundName(s.exports[1]) = BoundName(s.exports[2]) THEN "two-declarations-one-name" ELSE "two-declarations-one-package"))
-            \o ":" \o s.kind \o (IF s.variant = "samemodule" THEN ":same-module-name" ELSE IF s.variant = "suffixalias" THEN ":name-is-suffix-of-aliased-name" ELSE IF s.variant = "stdlibname" THEN ":module-named-like-imported-stdlib-module" ELSE IF s.variant = "exccls" THEN ":exception-class" ELSE IF s.variant = "pkgmodreexp" THEN ":package-file-re-exported-as-module" ELSE IF s.variant = "privreexp" THEN ":re-exported-by-private-package" ELSE IF s.variant = "samenameboth" THEN ":same-name-in-two-private-modules" ELSE IF s.variant = "pkgnamed" THEN ":package-named-like-its-re-export" ELSE IF s.variant = "privpkginit" THEN ":declared-in-private-package-file" ELSE IF s.variant = "privpkgtop" THEN ":declared-in-private-package-file-beside-re-exporter" ELSE "")
+            \o ":" \o s.kind \o (IF s.variant = "samemodule" THEN ":same-module-name" ELSE IF s.variant = "samemoduleboth" THEN ":same-module-name-both-re-exported-under-aliases" ELSE IF s.variant = "suffixalias" THEN ":name-is-suffix-of-aliased-name" ELSE IF s.variant = "stdlibname" THEN ":module-named-like-imported-stdlib-module" ELSE IF s.variant = "exccls" THEN ":exception-class" ELSE IF s.variant = "pkgmodreexp" THEN ":package-file-re-exported-as-module" ELSE IF s.variant = "privreexp" THEN ":re-exported-by-private-package" ELSE IF s.variant = "samenameboth" THEN ":same-name-in-two-private-modules" ELSE IF s.variant = "pkgnamed" THEN ":package-named-like-its-re-export" ELSE IF s.variant = "privpkginit" THEN ":declared-in-private-package-file" ELSE IF s.variant = "privpkgtop" THEN ":declared-in-private-package-file-beside-re-exporter" ELSE "")
 Emit == pc = "done" => PrintT(ToJson([kind |-> sc.kind, exports |-> sc.exports, variant |-> sc.variant, shape |-> Shape(sc)]))     \* shape: the signature of the scenario, for run-level judgements
 
 (* obs = [decls: Seq of [tgt, occs: Seq [home, name]]] *)
@@ -148,7 +151,7 @@ Judge(s, obs) ==
              ELSE
              (IF n = 0 THEN { [property |-> "C03", clause |-> "ExactlyOnce", sig |-> "u2:dropped:" \o Shape(s), expected |-> "1", observed |-> "0"] } ELSE {})
              \cup (IF n > 1 THEN { [property |-> "C03", clause |-> "ExactlyOnce", sig |-> "u2:duplicated:" \o Shape(s), expected |-> "1", observed |-> ToString(n)] } ELSE {})
-             \cup (IF s.variant \in {"distinct", "samemodule", "initdecl", "sharedbase", "suffixalias", "stdlibname", "exccls", "pkgmodreexp", "newtype", "privreexp", "genericattr", "samenameboth", "pkgnamed", "privpkginit", "privpkgtop"} /\ n = 1 /\ d.occs[1].home \notin AllowedHomes(s, d.tgt) THEN { [property |-> "C03", clause |-> "Home", sig |-> "u2:" \o Shape(s), expected |-> ToString(AllowedHomes(s, d.tgt)), observed |-> ToString(d.occs[1].home)] } ELSE {})
-             \cup (IF s.variant \in {"distinct", "samemodule", "initdecl", "sharedbase", "suffixalias", "stdlibname", "exccls", "pkgmodreexp", "newtype", "privreexp", "genericattr", "samenameboth", "pkgnamed", "privpkginit", "privpkgtop"} /\ n = 1 /\ d.occs[1].name \notin AllowedNames(s, d.tgt) THEN { [property |-> "C03", clause |-> "Name", sig |-> "u2:" \o Shape(s), expected |-> ToString(AllowedNames(s, d.tgt)), observed |-> d.occs[1].name] } ELSE {})
+             \cup (IF s.variant \in {"distinct", "samemodule", "initdecl", "sharedbase", "suffixalias", "stdlibname", "exccls", "pkgmodreexp", "newtype", "privreexp", "genericattr", "samenameboth", "pkgnamed", "privpkginit", "privpkgtop", "samemoduleboth"} /\ n = 1 /\ d.occs[1].home \notin AllowedHomes(s, d.tgt) THEN { [property |-> "C03", clause |-> "Home", sig |-> "u2:" \o Shape(s), expected |-> ToString(AllowedHomes(s, d.tgt)), observed |-> ToString(d.occs[1].home)] } ELSE {})
+             \cup (IF s.variant \in {"distinct", "samemodule", "initdecl", "sharedbase", "suffixalias", "stdlibname", "exccls", "pkgmodreexp", "newtype", "privreexp", "genericattr", "samenameboth", "pkgnamed", "privpkginit", "privpkgtop", "samemoduleboth"} /\ n = 1 /\ d.occs[1].name \notin AllowedNames(s, d.tgt) THEN { [property |-> "C03", clause |-> "Name", sig |-> "u2:" \o Shape(s), expected |-> ToString(AllowedNames(s, d.tgt)), observed |-> d.occs[1].name] } ELSE {})
         : j \in 1..Len(obs.decls) }
 =============================================================================
